@@ -164,6 +164,8 @@ def run(chk):
                 idxs = [rng.choice(pool[sid]) for _ in range(rng.randint(2, maxops))]
                 mut = {k for k in range(len(idxs)) if rng.random() < 0.4}
                 s = c12.record_session(ws, sc, sid, idxs, mutate_after=mut, one_loader=rng.random() < 0.3)
+                if s is None:
+                    continue
                 sessions.append(s)
                 # the same loads against independently loaded copies of the schema
                 rec = sc.proj_recs[sid]
